@@ -110,6 +110,65 @@ def origin_polygons(ctx):
     ctx.note('origin_polygons', n)
 
 
+DICTVALS = {'none': lambda: None, 'mpl': lambda: 'mpl', 'ds9': lambda: 'ds9', 'zero': lambda: 0, 'two': lambda: 2, 'empty': lambda: '', 'list0': lambda: [],
+            'list_a': lambda: ['a'], 'list_aa': lambda: ['a', 'a'], 'twelve': lambda: 12, 'list_12_12': lambda: [12, 12], 'list_8': lambda: [8], 'list_8_8': lambda: [8, 8]}
+
+
+def dict_entries(ctx):
+    """DictEq.tla: every key of the documented vocabularies x pairs of values (absent, None, default-like, empty, lists that differ
+    only in length): two regions with equal parameters are equal exactly when the entry is the same."""
+    import astropy.units as u
+    import numpy as np
+    from astropy.coordinates import SkyCoord
+    import regions as R
+    res = tlc.run('DictEq', cfg='DictEq.cfg', dump=True, tag='c16dict', timeout=1200)
+    ctx.tlc(res, 'DictEq: one meta/visual entry under every documented key, pairs of values')
+    if res.violated:
+        ctx.violation(f'C16|model|{res.violated}', f'DictEq.tla: {res.violated} fails in the model', {'trace': res.trace[-1:]})
+        tlc.cleanup(res.workdir)
+        return
+    sc = SkyCoord([10, 10.1, 10.05] * u.deg, [20, 20, 20.1] * u.deg)
+
+    def mk(name):
+        c1, c2 = R.CirclePixelRegion(R.PixCoord(3, 4), 2), R.CirclePixelRegion(R.PixCoord(5, 4), 2)
+        s1, s2 = R.CircleSkyRegion(sc[0], 2 * u.arcsec), R.CircleSkyRegion(sc[1], 3 * u.arcsec)
+        return {'CirclePix': lambda: R.CirclePixelRegion(R.PixCoord(3, 4), 2), 'PolygonSky': lambda: R.PolygonSkyRegion(sc),
+                'CompoundPix': lambda: c1 | c2, 'CompoundSky': lambda: s1 & s2, 'TextPix': lambda: R.TextPixelRegion(R.PixCoord(3, 4), 'label'),
+                'RegularPolygonPix': lambda: R.RegularPolygonPixelRegion(R.PixCoord(30, 40), 5, 4.0),
+                'EllipseAnnulusSky': lambda: R.EllipseAnnulusSkyRegion(sc[0], 1 * u.arcsec, 2 * u.arcsec, 3 * u.arcsec, 4 * u.arcsec, 10 * u.deg)}[name]()
+    pairs = {}
+    n = 0
+    for st in parse_dump(res.dump_path, only='eq = "'):
+        if st['eq'] == '?':
+            continue
+        n += 1
+        if st['cls'] not in pairs:
+            pairs[st['cls']] = (mk(st['cls']), mk(st['cls']))
+        r1, r2 = pairs[st['cls']]
+        for r_, v in ((r1, st['a']), (r2, st['b'])):
+            r_.meta.clear()
+            r_.visual.clear()
+            if v != 'absent':
+                getattr(r_, st['which'])[st['k']] = DICTVALS[v]()
+        ctx.case(('dicteq', st['cls'], st['which'], st['k'], st['a'], st['b']), st['a'] != st['b'])
+        try:
+            got = [bool(r1 == r2), bool(r2 == r1), not (r1 != r2), not (r2 != r1)]
+        except Exception as ex:  # noqa
+            ctx.violation(f"C16|entry|raises|{type(ex).__name__}|{st['which']}", f"== between regions whose {st['which']}[{st['k']!r}] is {st['a']} / {st['b']} raised {ex!r}", dict(st))
+            continue
+        want = st['eq'] == 'eq'
+        if got != [want] * 4:
+            ctx.violation(f"C16|entry|{st['which']}.{st['k']}|{st['a']}~{st['b']}", f"{st['cls']}: {st['which']}[{st['k']!r}] {st['a']} vs {st['b']}: ==, reflected ==, not !=, reflected not != give {got}, "
+                          f"the entries are {'the same' if want else 'different'}", dict(st))
+    for r1, r2 in pairs.values():
+        for r_ in (r1, r2):
+            r_.meta.clear()
+            r_.visual.clear()
+    ctx.traces += n
+    ctx.note('dict_entry_pairs', n)
+    tlc.cleanup(res.workdir)
+
+
 def run(ctx):
     quick = ctx.tier == 'quick'
     cat, cls = objs.catalogue(), objs.classes()
@@ -149,6 +208,7 @@ def run(ctx):
         ctx.note('copies_of_every_class', n)
     tlc.cleanup(res.workdir)
     origin_polygons(ctx)
+    dict_entries(ctx)
     lists.run(ctx, 'C16')
     ctx.assumptions += ['parameter values are catalogue tokens; pixel tolerance probed at 1e-7 (equal) and 1e-3 (different), not inside the asymmetric band of numpy.allclose',
                         'unit re-expression probed for deg/arcmin and arcmin/arcsec']
